@@ -1091,3 +1091,13 @@ func Returns(fn *ssa.Function) []*ssa.Return {
 	})
 	return out
 }
+
+// FuncFullName is the types.Func full name of a source function ("" for closures).
+func FuncFullName(fn *ssa.Function) string {
+	if fn.Object() != nil {
+		if f, ok := fn.Object().(*types.Func); ok {
+			return f.FullName()
+		}
+	}
+	return ""
+}
